@@ -347,7 +347,7 @@ REG.contract('Scheduler._generate_current_schedule', world=SW,
                        'self.cluster._resources.idle', 'self.cluster.num_provisioned_obs', 'heap:WorkflowPlan.status', 'arg:task_pool',
                        'self.buffer.events', 'self.buffer.hot.0.current_capacity', 'self.buffer.hot.0.observations.finished',
                        'self.buffer.hot.0.observations.scheduled'],
-             props=['C04', 'C09', 'C13', 'C07', 'C01', 'C10'])
+             props=['C04', 'C09', 'C13', 'C07', 'C01', 'C10', 'C12'])
 
 
 # ---- allocate_tasks: the per-observation workflow process ---------------------------------------------------------------
@@ -420,7 +420,7 @@ REG.contract('Scheduler.run', world=SW, locals_types={'obs': 'any', 'ret': 'proc
              raises={'RuntimeError': dict(when=lambda c: c.o.self.status.t != enum_code('SchedulerStatus', 'RUNNING'))},
              modifies=['self.events', 'ghost:unlogged_scheduler', 'self.observation_queue', 'self.buffer.hot.0.observations.stored',
                        'self.buffer.hot.0.observations.scheduled', 'heap:Observation.plan'],
-             props=['C04', 'C13'])
+             props=['C04', 'C13', 'C12'])
 
 
 def _sched_to_df(c):
